@@ -363,7 +363,7 @@ class CliWs:
     """kinds: per node one of None | 'exit' | 'timeout' | 'missing' | 'check'; a node fails with its kind until
     heal() creates its flag file. sleep: per node seconds of `sleep` inside the command."""
 
-    def __init__(self, ctx, name, n, edges, kinds=None, sleep=None, workers=2, dir_outputs=()):
+    def __init__(self, ctx, name, n, edges, kinds=None, sleep=None, workers=2, dir_outputs=(), sleep_after=()):
         self.grog = ctx.grog_binary()
         self.d = ctx.scratch(name)
         self.ws = os.path.join(self.d, "ws")
@@ -395,7 +395,8 @@ class CliWs:
             elif k == "check":
                 t["output_checks"] = [{"command": f"test -f {flag}"}]
             sl = f"sleep {sleep[i]}; " if sleep and sleep[i] else ""
-            t["command"] = (f'echo "s {i} $(date +%s%N)" >> {self.trace}; {gate}{sl}{produce}; '
+            body = f"{produce}; {sl}true" if i in sleep_after else f"{sl}{produce}"   # sleep_after: outputs exist while the command still runs
+            t["command"] = (f'echo "s {i} $(date +%s%N)" >> {self.trace}; {gate}{body}; '
                             f'echo "e {i} $(date +%s%N)" >> {self.trace}')
             targets.append(t)
         with open(os.path.join(self.ws, "pkg", "BUILD.json"), "w") as fh:
@@ -450,3 +451,90 @@ class CliWs:
 def failed_labels(out):
     import re
     return sorted({int(m.group(1)) for m in re.finditer(r"Target //pkg:t(\d+) failed", out)})
+
+
+# ------------------------------------------------------------------------------------------------
+# step-level correspondence of onComplete (in-package test TestVerifOnCompleteSteps vs walker.steps)
+# ------------------------------------------------------------------------------------------------
+
+def run_steps(ctx, cases, timeout=900):
+    """-> (list of (case, real steps, model reply) that disagree, info dict). Deterministic: the real onComplete is
+    called node by node; after every call the ready / cancel state of every node must equal the model's."""
+    import vlib
+    d = ctx.scratch("intest-steps")
+    cpath, opath = os.path.join(d, "cases.json"), os.path.join(d, "out.jsonl")
+    for i, c in enumerate(cases):
+        c["id"] = i
+    with open(cpath, "w") as fh:
+        json.dump([{k: v for k, v in c.items() if k in ("id", "n", "edges", "unsel", "failFast", "fail")} for c in cases], fh)
+    if os.path.exists(opath):
+        os.remove(opath)
+    rc, out = vlib.go_test("./internal/dag/", "TestVerifOnCompleteSteps$", timeout=timeout,
+                           env_extra={"VERIF_WALKER_CASES": cpath, "VERIF_WALKER_OUT": opath})
+    res = {}
+    if os.path.exists(opath):
+        for line in open(opath):
+            if line.strip():
+                j = json.loads(line)
+                res[j["id"]] = j
+    info = {"rc": rc, "raw": out[-4000:], "built": bool(res) or rc == 0, "n": len(res), "steps": 0}
+    if not res:
+        return [], info
+    order = [i for i in range(len(cases)) if i in res]
+    reqs = [{"op": "walker.steps", "n": cases[i]["n"], "edges": cases[i]["edges"], "unsel": cases[i].get("unsel", []),
+             "failFast": cases[i]["failFast"], "descFor": cases[i]["fail"], "steps": [[s[0], s[1]] for s in (res[i].get("steps") or [])]} for i in order]
+    reps = ctx.model(reqs)
+    bad = []
+    for i, m in zip(order, reps):
+        real = res[i].get("steps") or []
+        info["steps"] += len(real)
+        if res[i].get("panic"):
+            bad.append((cases[i], real, {"panic": res[i]["panic"]}, None))
+            continue
+        if not m.get("ok"):
+            bad.append((cases[i], real, m, len(m.get("done", []))))
+            continue
+        for k, (a, b) in enumerate(zip(real, m["steps"])):
+            if list(a) != list(b):
+                bad.append((cases[i], real, m, k))
+                break
+    return bad, info
+
+
+def describe_step_diff(c, real, m, k):
+    if k is None or "steps" not in m or k >= len(real) or k >= len(m["steps"]):
+        return str({kk: vv for kk, vv in m.items() if kk != "done"})[:300]
+    a, b = real[k], m["steps"][k]
+    msgs = []
+    for name, idx in (("ready", 2), ("cancel", 3)):
+        diff = [i for i in range(len(a[idx])) if a[idx][i] != b[idx][i]]
+        if diff:
+            msgs.append(f"{name} differs at nodes {diff[:8]} (real {''.join(a[idx][i] for i in diff[:8])}, model {''.join(b[idx][i] for i in diff[:8])})")
+    if a[4] != b[4]:
+        msgs.append(f"failFastTriggered real {a[4]} model {b[4]}")
+    if a[5] != b[5]:
+        msgs.append(f"context cancelled real {a[5]} model {b[5]}")
+    return f"after onComplete(node {a[0]}, success={a[1]}) [step {k}]: " + "; ".join(msgs)
+
+
+def step_oracle(c, real):
+    """model-independent reading of the step records: a node may hold a ready message only if all its dependencies were
+    completed successfully before; -> list of (prop, signature, message)"""
+    ins = deps_of(c["n"], c["edges"])
+    okset, bad = set(), []
+    failed_seen = False
+    for k, s in enumerate(real):
+        node, ok, ready = s[0], s[1], s[2]
+        if ok:
+            okset.add(node)
+        else:
+            failed_seen = True
+        for m, bit in enumerate(ready):
+            if bit == "1" and any(d not in okset for d in ins[m]):
+                bad.append(("C03", "released-before-dependencies-succeeded",
+                            f"after onComplete({node}, {ok}) node {m} holds a ready message although not all its dependencies completed successfully"))
+                return bad
+        if c["failFast"] and failed_seen and not s[5]:
+            bad.append(("C05", "fail-fast-context-not-cancelled", f"fail-fast: a failure was observed (step {k}) but the walk context is not cancelled"))
+            return bad
+    return bad
